@@ -141,6 +141,22 @@ def observe(case):
         r = {"add": a + b, "sub": a - b, "mul": a * b, "div": (a / b) if which == "div" else None}[which]
         return tri(r)
     s = mksig(c["sig"])
+    # another signal lives in the same process: same labels on other keys, other scaling.  It converts first; what one signal
+    # converts is no business of another
+    sd2 = dict(c["sig"])
+    vals = c["sig"]["values"]
+    lo2, hi2 = s.calculate_raw_range()
+    sd2["values"] = [[k2, v] for k2, v in zip([int(hi2) - i for i in range(len(vals))], [v for _, v in reversed(vals)]) if int(lo2) <= k2 <= int(hi2)]
+    sd2["factor"] = [False, "3", 0]
+    sd2["offset"] = [False, "7", 0]
+    decoy = mksig(sd2)
+    s = mksig(c["sig"])
+    for k2, v2 in sd2["values"]:
+        try:
+            decoy.phys2raw(v2)
+            decoy.raw2phys(k2, decode_to_str=True)
+        except Exception:  # noqa
+            pass
     if op == "label":
         try:
             r = s.phys2raw(c["label"])
